@@ -78,3 +78,42 @@ theorem C14_field_negative (f : Fld) (n : String) (e : Exc) (h : fieldFindName T
   all_goals first | (cases h; simp) | (simp at h)
 
 end Hl7.Pe
+
+namespace Hl7.Pe
+open Hl7 Hl7.Py Hl7.G
+
+variable (T : Tables)
+
+/-- **C14 (positional path = name, component level).** A positional path `<SEG>_<i>_<j>` on the field `<SEG>_<i>` of a complex datatype `DT`
+    — a spelling that is no child name itself, whose first two parts spell the field's own name and whose third part is an integer `j` —
+    resolves to exactly what the HL7 name `DT_<j>` resolves to: `fieldTraverse` hands the name `DT_<j>` to the same `fieldFindName`, and
+    returns its answer (the same child, or the same refusal). -/
+theorem C14_positional_component (f : Fld) (name : String) (a b cd : Str) (j : Int) (dt : String)
+    (hmiss : fieldFindName T f (upper name) = .error .ChildNotFound)
+    (hparts : splitOn '_' (upper name).toList = [a, b, cd])
+    (hint : Num.parseInt cd = some j)
+    (hname : f.name = some (String.ofList (a ++ '_' :: b)))
+    (hdt : f.dt = some dt) (hnb : isBase T f.dt = false) :
+    fieldTraverse T f name = (fieldFindName T f (dt ++ "_" ++ String.ofList (intStr j))).map (fun n => (n, none)) := by
+  unfold fieldTraverse
+  simp only [hmiss, hparts, List.length_cons, List.length_nil]
+  simp [hint, hname, hdt, List.getD]
+  have hb : isBase T (some dt) = false := by rw [← hdt]; exact hnb
+  simp only [hb, Bool.false_eq_true, ↓reduceIte, bind, Except.bind, pure, Except.pure]
+  cases hq : fieldFindName T f (dt ++ "_" ++ String.ofList (intStr j)) with
+  | ok n => simp [Except.map]
+  | error e => simp [Except.map, Functor.map, throw, throwThe, MonadExceptOf.throw]
+end Hl7.Pe
+
+namespace Hl7.Pe
+open Hl7 Hl7.Py Hl7.G
+/-- non-vacuity: the hypotheses are met by `pid_5_2` on a `PID_5` of datatype `XPN`, and the path resolves to `XPN_2` -/
+def exT : Tables := ⟨"2.5", [], [], [], [], [], [], [⟨"ST", .text, none⟩], []⟩
+def exF : Fld := ⟨some "PID_5", some "XPN", some [("XPN_1", .leaf (some "ST")), ("XPN_2", .leaf (some "ST"))], [], [], [], none⟩
+-- (a test by evaluation, labelled as such: Lean's `String` functions do not reduce in the kernel, so this is `#guard`, not `decide`)
+#guard fieldFindName exT exF (upper "pid_5_2") == .error .ChildNotFound
+#guard splitOn '_' (upper "pid_5_2").toList == ["PID".toList, "5".toList, "2".toList] && Num.parseInt "2".toList == some 2
+#guard exF.name == some (String.ofList ("PID".toList ++ '_' :: "5".toList)) && isBase exT exF.dt == false
+#guard fieldTraverse exT exF "pid_5_2" == .ok ("XPN_2", none)
+#guard fieldTraverse exT exF "pid_5_2" == (fieldFindName exT exF ("XPN" ++ "_" ++ String.ofList (intStr 2))).map (fun n => (n, none))
+end Hl7.Pe
